@@ -1,7 +1,13 @@
 import JetVerif.Props.C13
+import JetVerif.Props.Restore
 open JetVerif.Props.C13
 #print axioms failed_body_writes_nothing
 #print axioms failed_body_state_restored
 #print axioms try_restores_everything
 #print axioms success_copies_buffer
 #print axioms no_catch_swallows
+#print axioms JetVerif.Props.Restore.jet_restore_idioms_as_modelled
+#print axioms JetVerif.Props.Restore.jet_writer_restored_by_defer
+#print axioms JetVerif.Props.Restore.jet_handlers_restore_everything
+#print axioms JetVerif.Props.Restore.jet_include_scope_and_context_deferred
+#print axioms JetVerif.Props.Restore.jet_content_closure_restores_by_defer
